@@ -69,6 +69,32 @@ CATALOGUE = {
 }
 EXTRA_SETS = list(CATALOGUE) + ['emissions']
 
+# A field set that is registered in the middle of a run, after it was asked for (and refused) once:
+# what a program does that imports the module defining a field set only when it needs it.
+LATE = {
+    'vx_late': [
+        ('l_f64', 'TP', 'float64', True),
+        ('l_i32', 'T', 'int32', True),
+        ('l_s32', 'TS', 'float32', True),
+    ],
+}
+late_registered = False
+
+
+def register_late():
+    global late_registered
+    if late_registered:
+        return
+    from AEIC.storage import Dimensions, FieldMetadata, FieldSet
+
+    for name, fields in LATE.items():
+        kw = {}
+        for fname, dims, dt, req in fields:
+            kw[fname] = FieldMetadata(dimensions=Dimensions.from_abbrev(dims), field_type=getattr(np, dt),
+                                      description=f'harness field {fname}', units='u', required=req)
+        FieldSet(name, **kw)
+    late_registered = True
+
 _registered = False
 FIELDS: dict = {}  # fieldset name -> list[(field, dims, dtype, required)] incl. base, emissions
 
@@ -105,6 +131,8 @@ def register_catalogue():
             dt = 'str' if md.field_type is str else np.dtype(md.field_type).name
             out.append((fname, md.dimensions.abbrev, dt, md.required))
         FIELDS[name] = out
+    for name, fields in LATE.items():
+        FIELDS[name] = [tuple(x) for x in fields]
     _registered = True
 
 
